@@ -11,6 +11,7 @@ import (
 	"hash/fnv"
 	"runtime"
 	"strings"
+	"time"
 )
 
 // point is one recorded choice point of an execution.
@@ -136,7 +137,7 @@ func (x *X) CountN(name string, n int64) { x.w.counters[name] += n }
 
 // AddEvals records that this execution evaluated n extra sub-cases itself
 // (an inner loop that is complete over a finite domain).
-func (x *X) AddEvals(n int64) { x.evals += n }
+func (x *X) AddEvals(n int64) { x.evals += n; x.w.progress.Add(1) }
 
 // Memo caches a deterministic value for the lifetime of the worker.
 func Memo[T any](x *X, key string, build func() T) T {
@@ -213,3 +214,14 @@ func maskNumbers(s string) string {
 
 // Describe returns the human-readable description of the case so far.
 func (x *X) Describe() string { return x.description() }
+
+// Expired reports whether the worker's wall-clock budget is used up; inner
+// loops of long executions call it and stop (the run is then reported as not
+// exhaustive).
+func (x *X) Expired() bool {
+	if time.Now().After(x.w.deadline) {
+		x.w.res.Truncated = true
+		return true
+	}
+	return false
+}
